@@ -180,3 +180,5 @@ func RunEvy(src string, o RunOpts) (out RunOutcome) {
 }
 
 func joinLines(l []string) string { return strings.Join(l, "\x1e") }
+
+func newEvaluatorFor(p *recPlatform) *evaluator.Evaluator { return evaluator.NewEvaluator(p) }
